@@ -446,6 +446,10 @@ class FakeKernel:
             if sid['family'] == K['AF_INET'] and any(sid['daddr_raw'][4:]):
                 problems.append('DELSA IPv4 daddr has garbage beyond 4 bytes')
             if key not in self.sad:
+                # an SA with that SPI and protocol exists under another destination: the request names the wrong SA
+                other = [k for k in self.sad if k[1] == sid['proto'] and k[2] == sid['spi']]
+                if other:
+                    rec['decoded']['same_spi_other_daddr'] = [k[0].hex() for k in other]
                 return ESRCH
             return 0
         if mtype == K['XFRM_MSG_NEWPOLICY']:
